@@ -9,7 +9,7 @@ from fractions import Fraction
 
 import z3
 
-Z3_TIMEOUT_MS = int(os.environ.get("PYVC_Z3_TIMEOUT_MS", "120000"))   # safety net only
+Z3_TIMEOUT_MS = int(os.environ.get("PYVC_Z3_TIMEOUT_MS", "45000"))   # safety net only
 Z3_RLIMIT = int(os.environ.get("PYVC_Z3_RLIMIT", "30000000"))          # the deciding budget (deterministic)
 CVC5_TIMEOUT_S = int(os.environ.get("PYVC_CVC5_TIMEOUT_S", "15"))
 CVC5 = "/usr/bin/cvc5"
